@@ -1,131 +1,16 @@
 ----------------------------- MODULE MergeGroups -----------------------------
 (***************************************************************************)
-(* Transcription of bloomsearch's merge planning (merge.go:                *)
-(* identifyFileMergeGroups, hasMergeableBlockPair, processPartitionBlocks, *)
-(* blockMergeKey, blocksWithinMergeLimits) into TLA+, with the unstable    *)
-(* sort's tie order left nondeterministic, and the layout properties of    *)
-(* C12 as invariants of its result.  TLC evaluates the algorithm on every  *)
-(* population of the bounded domain.  MergeMonitor.tla evaluates the same  *)
-(* invariants on what the real Merge produced.                             *)
-(*                                                                         *)
-(* A block is [part, keys, rows, usize, dsize]: partition id, minmax key   *)
-(* set (as a set), row count, uncompressed bytes, on-disk footprint.       *)
-(* A file is a sequence of blocks.                                         *)
+(* The merge planner (MergeGroupsOps.tla) evaluated by TLC on every         *)
+(* population of a bounded domain, with the layout properties of C12 as     *)
+(* invariants of its result.                                               *)
 (***************************************************************************)
-EXTENDS Integers, Sequences, FiniteSets, TLC
+EXTENDS MergeGroupsOps
 
 CONSTANTS MRGRows,      \* MaxRowGroupRows
           MRGBytes,     \* MaxRowGroupBytes
           MaxFiles,     \* MaxFilesToMergePerOperation
           MaxFileSize   \* MaxFileSize
-
-RECURSIVE SumSeq(_, _)
-SumSeq(F(_), n) == IF n = 0 THEN 0 ELSE F(n) + SumSeq(F, n - 1)
-
-FileSize(f) == LET D(i) == f[i].dsize IN SumSeq(D, Len(f))
-FileRows(f) == LET R(i) == f[i].rows IN SumSeq(R, Len(f))
-AvgBlock(f) == FileSize(f) \div (IF Len(f) > 0 THEN Len(f) ELSE 1)
-
-MergeKey(b) == << b.part, b.keys >>
-PairWithin(b1, b2) == b1.rows + b2.rows <= MRGRows /\ b1.usize + b2.usize <= MRGBytes
-
-\* the sort's strict weak order: smaller average block size first, then smaller total size
-Less(f, g) == AvgBlock(f) < AvgBlock(g) \/ (AvgBlock(f) = AvgBlock(g) /\ FileSize(f) < FileSize(g))
-\* orders of the candidate indices the (unstable) sort may produce
-Perms(n) == { p \in [1..n -> 1..n] : \A i, j \in 1..n : i # j => p[i] # p[j] }
-SortedOrders(files) ==
-  { p \in Perms(Len(files)) : \A i, j \in 1..Len(files) : i < j => ~Less(files[p[j]], files[p[i]]) }
-
-\* hasMergeableBlockPair: some candidate block shares a merge key with a group block within pairwise limits
-Mergeable(groupBlocks, f) ==
-  \E i \in 1..Len(f) : \E j \in 1..Len(groupBlocks) :
-      MergeKey(f[i]) = MergeKey(groupBlocks[j]) /\ PairWithin(f[i], groupBlocks[j])
-
-RECURSIVE Concat(_, _)
-Concat(files, idxs) == IF idxs = <<>> THEN <<>> ELSE files[Head(idxs)] \o Concat(files, Tail(idxs))
-
-(***************************************************************************)
-(* identifyFileMergeGroups over the candidates in sorted order `ord`.      *)
-(* State of the outer loop: i, assigned, groups (seq of seq of file idx),  *)
-(* total files in groups.  Inner loop: j, current group, its size.         *)
-(***************************************************************************)
-RECURSIVE Inner(_, _, _, _, _, _, _)
-\* returns << group, assigned >>
-Inner(files, ord, j, group, gsize, assigned, total) ==
-  IF j > Len(ord) THEN << group, assigned >>
-  ELSE IF ord[j] \in assigned THEN Inner(files, ord, j + 1, group, gsize, assigned, total)
-  ELSE IF total + Len(group) + 1 > MaxFiles THEN << group, assigned >>
-  ELSE LET f == files[ord[j]]
-           newSize == gsize + FileSize(f) IN
-       IF newSize > MaxFileSize THEN Inner(files, ord, j + 1, group, gsize, assigned, total)
-       ELSE IF Mergeable(Concat(files, group), f)
-              THEN Inner(files, ord, j + 1, Append(group, ord[j]), newSize, assigned \cup {ord[j]}, total)
-              ELSE Inner(files, ord, j + 1, group, gsize, assigned, total)
-
-RECURSIVE Outer(_, _, _, _, _, _)
-Outer(files, ord, i, assigned, groups, total) ==
-  IF i > Len(ord) THEN groups
-  ELSE IF ord[i] \in assigned THEN Outer(files, ord, i + 1, assigned, groups, total)
-  ELSE IF total >= MaxFiles THEN groups
-  ELSE LET r == Inner(files, ord, i + 1, << ord[i] >>, FileSize(files[ord[i]]), assigned \cup {ord[i]}, total)
-           g == r[1] IN
-       IF Len(g) > 1 THEN Outer(files, ord, i + 1, r[2], Append(groups, g), total + Len(g))
-                     ELSE Outer(files, ord, i + 1, r[2], groups, total)
-
-FileGroups(files, ord) == IF Len(files) < 2 THEN <<>> ELSE Outer(files, ord, 1, {}, <<>>, 0)
-
-(***************************************************************************)
-(* processPartitionBlocks over one bucket (blocks sharing a merge key, in  *)
-(* their order of appearance): greedy seed + cumulative fit.               *)
-(***************************************************************************)
-RECURSIVE Collect(_, _, _, _, _, _, _)
-\* returns << group (seq of positions in bucket), used >>
-Collect(bucket, s, o, group, rows, size, used) ==
-  IF o > Len(bucket) THEN << group, used >>
-  ELSE IF o \in used \/ ~PairWithin(bucket[s], bucket[o])
-         THEN Collect(bucket, s, o + 1, group, rows, size, used)
-  ELSE IF rows + bucket[o].rows <= MRGRows /\ size + bucket[o].usize <= MRGBytes
-         THEN Collect(bucket, s, o + 1, Append(group, o), rows + bucket[o].rows, size + bucket[o].usize, used \cup {o})
-         ELSE Collect(bucket, s, o + 1, group, rows, size, used)
-
-RECURSIVE Seeds(_, _, _, _)
-Seeds(bucket, s, used, out) ==
-  IF s > Len(bucket) THEN out
-  ELSE IF s \in used THEN Seeds(bucket, s + 1, used, out)
-  ELSE LET r == Collect(bucket, s, s + 1, << s >>, bucket[s].rows, bucket[s].usize, used \cup {s})
-       IN Seeds(bucket, s + 1, r[2], Append(out, r[1]))
-
-BucketGroups(bucket) == Seeds(bucket, 1, {}, <<>>)
-
-\* the buckets of a group's blocks
-Keys(blocks) == { MergeKey(blocks[i]) : i \in 1..Len(blocks) }
-RECURSIVE Filter(_, _)
-Filter(blocks, k) ==
-  IF blocks = <<>> THEN <<>>
-  ELSE (IF MergeKey(Head(blocks)) = k THEN << Head(blocks) >> ELSE <<>>) \o Filter(Tail(blocks), k)
-
-(***************************************************************************)
-(* C12                                                                     *)
-(***************************************************************************)
-OutBlockOK(bucket, g) ==
-  LET R(i) == bucket[g[i]].rows
-      U(i) == bucket[g[i]].usize IN
-  Len(g) > 1 => (SumSeq(R, Len(g)) <= MRGRows /\ SumSeq(U, Len(g)) <= MRGBytes)
-
-PlanOK(files, ord) ==
-  LET groups == FileGroups(files, ord)
-      NG(i) == Len(groups[i]) IN
-  /\ SumSeq(NG, Len(groups)) <= MaxFiles                                          \* at most MaxFiles sources removed
-  /\ \A gi \in 1..Len(groups) :
-       LET blocks == Concat(files, groups[gi])
-           FS(i) == FileSize(files[groups[gi][i]]) IN
-       /\ Len(groups[gi]) >= 2
-       /\ SumSeq(FS, Len(groups[gi])) <= MaxFileSize                             \* merged files fit MaxFileSize
-       /\ \A k \in Keys(blocks) :
-            \A g \in { BucketGroups(Filter(blocks, k))[x] : x \in 1..Len(BucketGroups(Filter(blocks, k))) } :
-               OutBlockOK(Filter(blocks, k), g)                                  \* combined blocks within limits, one key
-  /\ \A i, j \in 1..Len(groups) : i # j =>                                        \* no file in two groups
-       { groups[i][x] : x \in 1..Len(groups[i]) } \cap { groups[j][x] : x \in 1..Len(groups[j]) } = {}
+Lim == [mr |-> MRGRows, mb |-> MRGBytes, mf |-> MaxFiles, ms |-> MaxFileSize]
 
 \* bounded population for TLC
 CONSTANTS NFiles, RowChoices
@@ -138,5 +23,5 @@ vars == << files, ord >>
 Init == files \in [1..NFiles -> FileDom] /\ ord = << >>
 Next == ord = << >> /\ files' = files /\ ord' \in SortedOrders(files)
 Spec == Init /\ [][Next]_vars
-C12_PlanRespectsLimits == ord # << >> => PlanOK(files, ord)
+C12_PlanRespectsLimits == ord # << >> => PlanOK(Lim, files, ord)
 =============================================================================
